@@ -36,6 +36,8 @@ const (
 	verifTickSrvIdle
 	verifTickSrvOpening
 	verifTickCliGoAwaySweep
+	verifTickCliReqOnTable
+	verifTickCliReqFailed
 )
 
 func verifTick(which int)                                                  {}
